@@ -475,3 +475,40 @@ package interpreter
 //@ requires [interp] i != nil
 //@ loop 1:
 //@   invariant [flagmono] old(utils.HadRuntimeError) ==> utils.HadRuntimeError
+
+// ---- key / value listing (C12, C13) -----------------------------------
+
+//@ func sortedKeys [C12,C13]
+//@ requires [obj] object != nil
+//@ loop 1:
+//@   orderfree the collected names are sorted afterwards; post:len, post:member and post:sorted pin the result down (a strictly ascending listing of exactly the members of a finite set is unique)
+//@   invariant [len] len(keys) == pos && 0 <= pos && pos <= len(object) && off(keys) == 0
+//@   invariant [member] forall(j, 0, len(keys), has(object, keys[j]) && sel(visited, keys[j]))
+//@   invariant [distinct] forall(i, 0, len(keys), forall(j, 0, len(keys), i < j ==> keys[i] != keys[j]))
+//@ ensures [len] len(result) == len(object)
+//@ ensures [member] forall(j, 0, len(result), has(object, result[j]))
+//@ ensures [sorted] forall(j, 0, len(result)-1, strlt(result[j], result[j+1]))
+//@ ensures [pure] curMD() == old(curMD()) && curMV() == old(curMV()) && curMC() == old(curMC()) && curEV() == old(curEV())
+//@ assumes [canonical] forall(j, 0, len(result), result[j] == sortedKeyOf(objDom(object), j))
+
+//@ func (n NativeKeysFn) Call [C12,C13]
+//@ loop 1:
+//@   invariant [len] len(keys) == iter
+//@   invariant [frame] !old(arrAllocated(now(ref(keys)))) && forall(r, Int, old(arrAllocated(r)) ==> arrRow(r) == old(arrRow(r)))
+//@   invariant [listing] forall(j, 0, iter, elem(keys, j) == mkStr(sortedKeyOf(objDom(obj(arguments[0])), j)) && objHas(obj(arguments[0]), str(elem(keys, j))))
+//@ ensures [count] len(arguments) != 1 ==> result1 != nil
+//@ ensures [type] len(arguments) == 1 && !isObj(arguments[0]) ==> result1 != nil
+//@ ensures [ok] len(arguments) == 1 && isObj(arguments[0]) ==> result1 == nil && isArr(result0) && len(arr(result0)) == objCard(obj(arguments[0]))
+//@ ensures [listing] result1 == nil ==> forall(j, 0, len(arr(result0)), elem(arr(result0), j) == mkStr(sortedKeyOf(objDom(obj(arguments[0])), j)) && objHas(obj(arguments[0]), str(elem(arr(result0), j))))
+//@ ensures [pure] curMD() == old(curMD()) && curMV() == old(curMV()) && curMC() == old(curMC())
+
+//@ func (n NativeValuesFn) Call [C12,C13]
+//@ loop 1:
+//@   invariant [len] len(values) == iter
+//@   invariant [frame] !old(arrAllocated(now(ref(values)))) && forall(r, Int, old(arrAllocated(r)) ==> arrRow(r) == old(arrRow(r)))
+//@   invariant [listing] forall(j, 0, iter, elem(values, j) == objGet(obj(arguments[0]), sortedKeyOf(objDom(obj(arguments[0])), j)))
+//@ ensures [count] len(arguments) != 1 ==> result1 != nil
+//@ ensures [type] len(arguments) == 1 && !isObj(arguments[0]) ==> result1 != nil
+//@ ensures [ok] len(arguments) == 1 && isObj(arguments[0]) ==> result1 == nil && isArr(result0) && len(arr(result0)) == objCard(obj(arguments[0]))
+//@ ensures [listing] result1 == nil ==> forall(j, 0, len(arr(result0)), elem(arr(result0), j) == objGet(obj(arguments[0]), sortedKeyOf(objDom(obj(arguments[0])), j)))
+//@ ensures [pure] curMD() == old(curMD()) && curMV() == old(curMV()) && curMC() == old(curMC())
